@@ -22,10 +22,12 @@ func init() {
 	stds["stanzaerror"] = Std{
 		Build: func(v Rec) interface{} { return buildStanzaError(v) },
 		New:   func() interface{} { return &stanza.Error{} },
+		Proj:  func(p interface{}) Rec { return projStanzaError(*p.(*stanza.Error)) },
 	}
 	stds["streamerror"] = Std{
 		Build: func(v Rec) interface{} { return buildStreamError(v) },
 		New:   func() interface{} { return &stream.Error{} },
+		Proj:  func(p interface{}) Rec { return projStreamError(*p.(*stream.Error)) },
 	}
 }
 
